@@ -174,8 +174,48 @@ def run(repo, rep, tier):
         rep.check('primitives', '%s / %s use format %r' % (wq, rq, fmt), wfm == [fmt] and rfm == [fmt], F('readbuf', rq), '%s packs %s, %s unpacks %s' % (wq, wfm, rq, rfm), sample={'rule': 'primitives', 'pair': [wq, rq], 'format': fmt})
         rd = [n for n in walk_no_nested(F('readbuf', rq)) if isinstance(n, ast.Call) and unparse(n.func) == 'self.read']
         rep.check('primitives', '%s reads calcsize(%r) = %d bytes' % (rq, fmt, struct.calcsize(fmt)), len(rd) == 1 and unparse(rd[0].args[0]) == str(struct.calcsize(fmt)), F('readbuf', rq), '%s reads %s bytes' % (rq, unparse(rd[0].args[0]) if rd else '?'))
-    t = unparse(F('writebuf', 'WriteBuf.write_string'))
-    rep.check('primitives', 'write_string = uint32 length + bytes', 'self.write_int(len(v))' in t and 'return self.write(v)' in t, F('writebuf', 'WriteBuf.write_string'), 'write_string changed')
+    # write_string: the length prefix counts the very bytes that follow.  Typestate on the CFG: the operand of len() in the length prefix and the value
+    # written after it must be the same name, and on every path to the prefix that name holds bytes (annotation says bytes only, or a dominating
+    # `if not isinstance(v, bytes): v = <bytes-producing expression>`); a str reaching len() is counted in code points but written as UTF-8.
+    wsf = F('writebuf', 'WriteBuf.write_string')
+    from sa.cfg import CFG as _CFG, describe_path as _dp
+    wcfg = _CFG(wsf, exc_edges=False)
+    pref = [n for n in walk_no_nested(wsf) if isinstance(n, ast.Call) and unparse(n.func) == 'self.write_int' and n.args and isinstance(n.args[0], ast.Call) and unparse(n.args[0].func) == 'len']
+    wr = [n for n in walk_no_nested(wsf) if isinstance(n, ast.Call) and unparse(n.func) == 'self.write' and n.args]
+    ok = len(pref) == 1 and len(wr) == 1 and isinstance(pref[0].args[0].args[0], ast.Name) and unparse(wr[0].args[0]) == unparse(pref[0].args[0].args[0]) and pref[0].lineno < wr[0].lineno
+    rep.check('primitives', 'write_string = uint32 length of v, then v itself', ok, wsf, 'write_string no longer writes len(v) followed by v')
+    if ok:
+        vname = pref[0].args[0].args[0].id
+        ann = next((unparse(a.annotation) for a in wsf.args.args if a.arg == vname and a.annotation is not None), None)
+        may_be_str = ann is None or 'str' in ann or 'Any' in ann
+
+        def makes_bytes(e):
+            if isinstance(e, ast.Call):
+                fn = unparse(e.func)
+                return fn in ('bytes', 'bytearray') or (isinstance(e.func, ast.Attribute) and e.func.attr == 'encode') or fn.endswith('to_bytes')
+            return isinstance(e, ast.Constant) and isinstance(e.value, bytes)
+
+        def converts(st):
+            # `v = <bytes>` under `not isinstance(v, bytes)` (or unconditionally)
+            return isinstance(st, ast.Assign) and len(st.targets) == 1 and unparse(st.targets[0]) == vname and makes_bytes(st.value)
+
+        def narrows(node):
+            # the branch node taken when isinstance(v, bytes) is known true
+            st = node.stmt
+            if node.kind != 'branch' or not isinstance(st, ast.If):
+                return False
+            t = st.test
+            pos = isinstance(t, ast.Call) and unparse(t.func) == 'isinstance' and len(t.args) == 2 and unparse(t.args[0]) == vname and unparse(t.args[1]) == 'bytes'
+            neg = isinstance(t, ast.UnaryOp) and isinstance(t.op, ast.Not) and isinstance(t.operand, ast.Call) and unparse(t.operand.func) == 'isinstance' and len(t.operand.args) == 2 \
+                and unparse(t.operand.args[0]) == vname and unparse(t.operand.args[1]) == 'bytes'
+            return (pos and node.label == 'T') or (neg and node.label == 'F')
+        if may_be_str:
+            gates = [n for n in wcfg.nodes if (n.stmt is not None and n.kind == 'stmt' and converts(n.stmt)) or narrows(n)]
+            targets = wcfg.stmts_matching(lambda st: any(x is pref[0] for x in ast.walk(st)))
+            pth = wcfg.find_path([wcfg.entry], targets, avoid=gates)
+            rep.check('primitives', 'the length prefix of write_string is taken on bytes on every path (a str is converted first)', pth is None, pref[0],
+                      'write_string takes len(%s) while %s may still be a str: the prefix counts code points but the value is written as UTF-8, so a string with non-ASCII characters is followed by more bytes than announced and the rest of the message is misparsed' % (vname, vname),
+                      witness=_dp(pth) if pth else None, stmt='write_string length prefix on bytes')
     rsq = F('readbuf', 'ReadBuf.read_string')
     body = [unparse(s) for s in rsq.body]
     rep.check('primitives', 'read_string = uint32 length + that many bytes', body == ['n = self.read_int()', 'return self.read(n)'], rsq, 'read_string body: %s' % body)
